@@ -316,3 +316,104 @@ Fixpoint is_prefix (p s : seq) : bool :=
 Definition stop_cut (before : list seq) (p : seq) : bool := existsb (is_prefix (p ++ [STOP])) before.
 Definition invented (before after : list seq) : list seq :=
   filter (fun p => negb (mem_seq p before) && negb (stop_cut before p)) after.
+
+(* ------------------------------------------------------------------ bubble creation as an algorithm (round 2) *)
+(* add_bubbles ref vs: the design-level content of ThreeFrameTVG.create_variant_graph / apply_variant for records
+   t[v_s, v_e) := v_alt (Spec.variant; SNV / MNV / INDEL after anchoring):
+     * the reference chain is cut at every record boundary (cuts = 0, |ref|, every v_s and v_e); the reference node
+       of a cut c spells ref[c, next cut) and leads to the junction at its end;
+     * record j contributes ONE sibling node carrying v_alt, labelled with its index j, that leaves the chain at the
+       junction v_s and re-joins it at the junction v_e;
+     * a junction p offers the reference node starting at p (when p < |ref|) and every record node starting at p.
+   Overlapping records are alternatives: a path that took record a is at junction v_e a and can only take records
+   starting there or later.  Abutting records (v_e a = v_s b) CAN follow each other: this is Spec's permissive
+   compatibility (compat false, the MAY semantics); the strict one (compat true) selects a subset of these paths.
+   Node ids: root 0; reference node of cut p: 1 + p*K; record j (starting at p): 1 + p*K + 1 + j, K = |vs| + 2:
+   ids grow along every edge. *)
+Definition bb_K (vs : list variant) : nat := S (S (length vs)).
+Definition bb_idR (K : nat) (p : Z) : nat := S (Z.to_nat p * K).
+Definition bb_idV (K : nat) (p : Z) (j : nat) : nat := S (Z.to_nat p * K + S j).
+Definition bb_cuts (L : Z) (vs : list variant) : list Z := 0 :: L :: flat_map (fun v => [v_s v; v_e v]) vs.
+(* the smallest cut behind p (L when there is none) *)
+Definition bb_next (cs : list Z) (L p : Z) : Z :=
+  fold_right (fun c acc => if (p <? c) && (c <? acc) then c else acc) L cs.
+Fixpoint bb_starts (K : nat) (vs : list variant) (p : Z) (j : nat) : list nat :=
+  match vs with
+  | [] => []
+  | v :: r => (if v_s v =? p then [bb_idV K p j] else []) ++ bb_starts K r p (S j)
+  end.
+Definition bb_out (K : nat) (L : Z) (vs : list variant) (p : Z) : list nat :=
+  (if p <? L then [bb_idR K p] else []) ++ bb_starts K vs p 0.
+Definition bb_ref_node (ref : seq) (K : nat) (L : Z) (vs : list variant) (cs : list Z) (c : Z) : nat * node :=
+  (bb_idR K c, mkNode (slice ref c (bb_next cs L c)) [] (bb_out K L vs (bb_next cs L c))).
+Fixpoint bb_var_nodes (K : nat) (L : Z) (all vs : list variant) (j : nat) : graph :=
+  match vs with
+  | [] => []
+  | v :: r => (bb_idV K (v_s v) j, mkNode (v_alt v) [Z.of_nat j] (bb_out K L all (v_e v))) :: bb_var_nodes K L all r (S j)
+  end.
+Definition add_bubbles (ref : seq) (vs : list variant) : graph :=
+  let K := bb_K vs in
+  let L := zlen ref in
+  let cs := bb_cuts L vs in
+  (0%nat, mkNode [] [] (bb_out K L vs 0))
+  :: map (bb_ref_node ref K L vs cs) (filter (fun c => (0 <=? c) && (c <? L)) cs)
+  ++ bb_var_nodes K L vs vs 0.
+
+(* well-formed record list: inside the reference, non-empty interval; sorted by start *)
+Definition bb_wf (ref : seq) (vs : list variant) : bool :=
+  forallb (fun v => (0 <=? v_s v) && (v_s v <? v_e v) && (v_e v <=? zlen ref)) vs.
+Fixpoint bb_sorted (vs : list variant) : bool :=
+  match vs with
+  | a :: ((b :: _) as r) => (v_s a <=? v_s b) && bb_sorted r
+  | _ => true
+  end.
+
+(* the indices selected by a mask (the id set of the haplotype select m vs) *)
+Fixpoint ids_of_mask (j : nat) (m : list bool) : list Z :=
+  match m with
+  | [] => []
+  | b :: m' => (if b then [Z.of_nat j] else []) ++ ids_of_mask (S j) m'
+  end.
+
+(* the language the theorem add_bubbles_lang assigns to the graph, as an executable list: all pairwise compatible
+   (permissive) sub-lists incl. the empty one *)
+Definition bubble_spec (ref : seq) (vs : list variant) : list (seq * list Z) :=
+  map (fun m => (apply_hap ref (select m vs), ids_of_mask 0 m))
+      (filter (fun m => pairwise false (select m vs)) (masks (length vs))).
+
+(* --- the real transcript variant graph against the MODEL graph (stage tvg-bubbles of the stream `graph`):
+   real = words of the dumped graph in the reading frame `off`, model = lang (add_bubbles tx vs) 0 *)
+Definition bb_model (x : input) (off : nat) : list (seq * list Z) :=
+  map (fun w => (skipn off (fst w), snd w)) (lang (add_bubbles (in_tx x) (in_vars x)) 0).
+Definition bb_same (n : nat) (a b : seq * list Z) : bool := same_ids n (snd a) (snd b) && eq_seq (fst a) (fst b).
+(* real words (string, id set) the model graph does not have *)
+Definition bb_real_only (x : input) (off : nat) (real : list (seq * list Z)) : list (seq * list Z) :=
+  let n := length (in_vars x) in
+  let ms := bb_model x off in
+  filter (fun r => negb (existsb (bb_same n r) ms)) real.
+(* a model word is obliged when its id set is empty (the reference) or an obliged haplotype *)
+Definition bb_obliged (x : input) (w : seq * list Z) : bool :=
+  is_nil (snd w) || existsb (eq_bools (mask_of_ids (length (in_vars x)) (snd w))) (must_masks x).
+(* model words whose string the real graph does not spell: (obliged ones, number of the others) *)
+Definition bb_model_only (x : input) (off : nat) (real : list (seq * list Z)) : list (seq * list Z) * Z :=
+  let rs := strings real in
+  let miss := filter (fun w => negb (mem_seq (fst w) rs)) (bb_model x off) in
+  (filter (bb_obliged x) miss, zlen (filter (fun w => negb (bb_obliged x w)) miss)).
+
+(* --- graphs on DERIVED backbones (fusion / alternative splicing / circRNA), stage tvg-bubbles / tvg-aligned.
+   The Level-S models reduce such a record to a linear input y (SpecFusion.fuse_gen, SpecAS.as_apply_all,
+   SpecCirc.circ_linear); by add_bubbles_lang the strings of the bubble graph of y are bubble_spec (in_tx y)
+   (in_vars y).  Labels are not compared here (the ids of derived records are not those of the dump). *)
+Definition ext_strings (off : nat) (y : input) : list seq :=
+  map (fun w => skipn off (fst w)) (bubble_spec (in_tx y) (in_vars y)).
+(* real strings that no permitted backbone / record combination spells *)
+Definition ext_unsound (off : nat) (ys : list input) (real : list seq) : list seq :=
+  let all := flat_map (ext_strings off) ys in
+  filter (fun s => negb (mem_seq s all)) real.
+(* strings of the obliged haplotypes hs of backbone y *)
+Definition ext_obliged (off : nat) (y : input) (hs : list (list variant)) : list seq :=
+  map (fun h => skipn off (apply_hap (in_tx y) h)) hs.
+Definition ext_missing (obl real : list seq) : list seq := filter (fun s => negb (mem_seq s real)) obl.
+(* translation stage without record semantics: n = number of distinct ids of the two graphs *)
+Definition dedup_seqs (l : list seq) : list seq :=
+  fold_right (fun s acc => if mem_seq s acc then acc else s :: acc) [] l.
